@@ -278,6 +278,8 @@ stores! {
     VO: Vec<Option<E>>, BA: (Box<E>, [E; 2]), OBT: Option<Box<(E, E)>>, AV: [Vec<E>; 2], TRO: (Result<E, E>, Option<E>),
     RCV: RefCell<Vec<E>>, VB: Vec<Box<E>>, BV: Box<Vec<E>>, MDV: ManuallyDrop<Vec<E>>, AUT: AssertUnwindSafe<(E, E)>,
     ORC: Option<RefCell<E>>, VT: Vec<(E, E)>, AO: [Option<E>; 3], BBS: Box<Box<[E]>>, RR: Result<Vec<E>, Box<E>>,
+    VMD: Vec<ManuallyDrop<E>>, AOMD: [Option<ManuallyDrop<E>>; 2], BSMD: Box<[ManuallyDrop<Option<E>>]>, VAUS: Vec<AssertUnwindSafe<E>>,
+    VRC: Vec<RefCell<E>>, TMD: (ManuallyDrop<E>, E),
 }
 
 /// (kind name, Store variant, n, option/result pattern (bit = None/Err), leaks its edges on drop)
@@ -296,6 +298,8 @@ pub const STORE_KINDS: &[(&str, &str, usize, u32, bool)] = &[
     ("cell_vec", "RCV", 2, 0, false), ("vec_box", "VB", 2, 0, false), ("box_vec", "BV", 3, 0, false), ("mdrop_vec", "MDV", 2, 0, true),
     ("aus_tup", "AUT", 0, 0, false), ("opt_cell", "ORC", 0, 0, false), ("vec_tup", "VT", 2, 0, false), ("arr_opt", "AO", 0, 0b100, false),
     ("box_bslice", "BBS", 2, 0, false), ("res_vec", "RR", 2, 0, false), ("res_box", "RR", 2, 1, false),
+    ("vec_mdrop", "VMD", 2, 0, true), ("arr_opt_mdrop", "AOMD", 0, 0, true), ("bslice_mdrop_opt", "BSMD", 2, 0, true), ("vec_aus", "VAUS", 2, 0, false),
+    ("vec_cell", "VRC", 2, 0, false), ("tup_mdrop", "TMD", 0, 0, true),
 ];
 
 pub fn make_store(kind: usize, owner: u32) -> (Store, u32) {
@@ -308,6 +312,51 @@ pub fn make_store(kind: usize, owner: u32) -> (Store, u32) {
 
 pub fn store_leaks(kind: usize) -> bool {
     STORE_KINDS[kind].4
+}
+
+thread_local! {
+    /// Finalize calls received by zero-sized elements since the last reset.
+    pub static ZFIN: Cell<u32> = const { Cell::new(0) };
+}
+
+/// A zero-sized element with a counting finalizer (forwarding through sequences must not skip it).
+pub struct Z;
+unsafe impl Trace for Z {
+    fn trace(&self, _: &mut Context<'_>) {}
+}
+impl Finalize for Z {
+    fn finalize(&self) {
+        let _ = ZFIN.try_with(|c| c.set(c.get() + 1));
+    }
+}
+
+#[derive(Trace)]
+#[rust_cc(unsafe_no_drop)]
+pub struct Zsts {
+    v: Vec<Z>,
+    a: [Z; 3],
+    b: Box<[Z]>,
+    t: (Z, Z),
+    o: Option<Z>,
+    vv: Vec<(Z, Z)>,
+    r: RefCell<[Z; 2]>,
+}
+pub const N_ZSTS: u32 = 2 + 3 + 1 + 2 + 1 + 4 + 2;
+impl Zsts {
+    pub fn new() -> Zsts {
+        Zsts { v: vec![Z, Z], a: [Z, Z, Z], b: vec![Z].into_boxed_slice(), t: (Z, Z), o: Some(Z), vv: vec![(Z, Z), (Z, Z)], r: RefCell::new([Z, Z]) }
+    }
+}
+impl Finalize for Zsts {
+    fn finalize(&self) {
+        self.v.finalize();
+        self.a.finalize();
+        self.b.finalize();
+        self.t.finalize();
+        self.o.finalize();
+        self.vv.finalize();
+        self.r.finalize();
+    }
 }
 
 /// First traced field: announces the trace call (and is a fault site).
@@ -351,6 +400,7 @@ pub struct Node {
     pub weaks: RefCell<Vec<AnyWeak>>,
     pub self_weak: RefCell<Option<AnyWeak>>,
     pub cleaner: Cleaner,
+    pub zsts: Zsts,
     pub marker: std::marker::PhantomData<Edge>,
     #[rust_cc(ignore)]
     pub pins: Pins,
@@ -371,6 +421,7 @@ impl Node {
                 weaks: RefCell::new(Vec::new()),
                 self_weak: RefCell::new(None),
                 cleaner: Cleaner::new(),
+                zsts: Zsts::new(),
                 marker: std::marker::PhantomData,
                 pins: Pins(RefCell::new(Vec::new())),
                 fin,
@@ -448,7 +499,7 @@ pub struct KeyI {
 }
 impl std::fmt::Display for KeyI {
     fn fmt(&self, f: &mut std::fmt::Formatter<'_>) -> std::fmt::Result {
-        write!(f, "k{}", self.key)
+        std::fmt::Display::fmt(&self.key, f) // honours width, fill, sign, ...
     }
 }
 unsafe impl Trace for KeyI {
@@ -469,7 +520,7 @@ pub struct KeyF {
 }
 impl std::fmt::Display for KeyF {
     fn fmt(&self, f: &mut std::fmt::Formatter<'_>) -> std::fmt::Result {
-        write!(f, "f{}", self.key)
+        std::fmt::Display::fmt(&self.key, f) // honours width, precision, sign, ...
     }
 }
 unsafe impl Trace for KeyF {
